@@ -354,6 +354,15 @@ def flush(obs, pending, pre, instances, base, i, kind, p, sym, raised, timeout):
             r = solver.check()
             if r != z3.unknown:
                 break
+        if r == z3.unknown:
+            # a VC that is not valid usually ends `unknown` under E-matching; model-based instantiation may find the model
+            solver = z3.Solver()
+            solver.set("timeout", min(timeout, 6000))
+            solver.add(*hyp)
+            for f in fs:
+                solver.add(B(f))
+            if solver.check() == z3.sat:
+                r = z3.sat
         dt = time.time() - t
         if r == z3.unsat:
             obs.append(Ob(name, kind, DISCHARGED, "z3", dt, evaluations=1 if kind == "bounded" else 0))
@@ -464,3 +473,142 @@ def apply_contract(interp, g, callee_cname, mname, contract, sym):
     for wname, f in GM.wf_clauses(v_post, callee_cname, tag=tag, bound=alloc_top(h)):
         interp.assume(f)
     return None
+
+
+# ------------------------------------------------------------------------------------------------ derivations
+def run_derivation(world, cname, contract, iter_bound=1, chg_one_slot=False):
+    it = Interp(world)
+    GM.install(it)
+    it.prune = prune
+    cls = world.cls(cname)
+
+    def thunk(interp, handles):
+        interp.state["heap"] = Heap("pre")
+        interp.state["iter_bound"] = iter_bound
+        interp.state["chg_one_slot"] = chg_one_slot
+        h = heap_of(interp)
+        g = GM.sym_graph(interp, cname, "g_")
+        interp.assume(h.A0 >= 0)
+        for ax in H.background_axioms():
+            interp.assume(ax)
+        h0 = h.snapshot()
+        g0 = Obj(g.cls, dict(g.fields))
+        v0 = GM.View(h0, g0)
+        for name, f in GM.wf_clauses(v0, cname):
+            interp.assume(f)
+        H._CURRENT["interp"] = interp
+        interp.state["wf_view"] = (v0, cname)
+        (kind, name, pos, kw), sym = contract.call(interp, g, cname)
+        interp.assume(contract.pre(v0, sym, cname))
+        for t_ in sym.values():
+            for tt in (t_ if isinstance(t_, list) else [t_]):
+                if tt is not None and z3.is_expr(tt) and not str(tt).endswith("_ref"):
+                    H.note_ground(interp, tt)
+        handles.update(g0=g0, g1=g, h0=h0, h1=h, v0=v0, sym=sym)
+        try:
+            if kind == "method":
+                c, m = cls.find(name)
+                res = interp.call_value(BoundMethod(g, m[1], c) if name not in c.classmethods else BoundMethod(ClassRef(cls), m[1], c), pos, kw)
+            else:
+                res = interp.instantiate(world.cls(name), pos, kw)
+            handles["res"] = res
+        finally:
+            handles["bounded"] = bool(interp.state.get("bounded_iteration"))
+            handles["ground"] = (list(interp.state.get("ground_ints", [])), list(interp.state.get("ground_bonds", [])))
+        return res
+
+    return it.run(thunk)
+
+
+def fresh_clauses(vR: "GM.View", A0, cname):
+    """C10: every mutable object reachable from the result was allocated during the call"""
+    x = z3.Int("fx")
+    b = z3.Const("fb", BondS)
+    cl = []
+    for nm, r in (("atom-table", vR.AT), ("neighbour-table", vR.NT), ("bond-table", vR.BT), ("atom-stereo-table", vR.AS), ("bond-stereo-table", vR.BS),
+                  ("atom-change-table", vR.AC), ("bond-change-table", vR.BC)):
+        if r is not None:
+            cl.append((f"{nm}-is-fresh", [], r >= A0))
+    cl.append(("atom-attribute-dicts-are-fresh", [x], z3.Implies(vR.atom(x), vR.aref(x) >= A0)))
+    cl.append(("neighbour-sets-are-fresh", [x], z3.Implies(vR.atom(x), vR.nref(x) >= A0)))
+    cl.append(("bond-attribute-dicts-are-fresh", [b], z3.Implies(vR.bond(b), vR.bref(b) >= A0)))
+    if vR.AC is not None:
+        cl.append(("atom-change-dicts-are-fresh", [x], z3.Implies(vR.ac_has(x), vR.ac_ref(x) >= A0)))
+        cl.append(("bond-change-dicts-are-fresh", [b], z3.Implies(vR.bc_has(b), vR.bc_ref(b) >= A0)))
+    return cl
+
+
+def verify_derivation(obs, world, cname, dname, contract, pid, timeout=20000, iter_bound=1, chg_one_slot=False, want=("view", "wf", "fresh", "source")):
+    base = f"{REL[cname]}:{cname}.{dname}"
+    try:
+        paths = run_derivation(world, cname, contract, iter_bound, chg_one_slot)
+    except OutOfSubset as e:
+        obs.append(Ob(f"E1/{base}", "proof", ERROR, detail=f"out of subset: {e}"))
+        return
+    if not paths:
+        obs.append(Ob(f"E1/{base}", "proof", ERROR, detail="no paths"))
+        return
+    comps = components_for(cname)
+    for i, p in enumerate(paths):
+        hd = p.handles
+        if "v0" not in hd:
+            obs.append(Ob(f"E1/{base}#path{i}", "proof", ERROR, detail="path ended before the call"))
+            continue
+        v0, sym, h0, h1, g0, g1 = hd["v0"], hd["sym"], hd["h0"], hd["h1"], hd["g0"], hd["g1"]
+        kind = "bounded" if hd.get("bounded") else "proof"
+        pre = list(p.assumptions) + list(p.pc)
+        raised = p.outcome[0] == "raise"
+        sym_flat = {k: v for k, v in sym.items() if v is not None and z3.is_expr(v)}
+        arg_ints = [t for t in hd.get("ground", ([], []))[0]]
+        arg_bonds = [t for t in hd.get("ground", ([], []))[1]]
+        base_cache = {}
+
+        def instances(skolems, v0=v0, arg_ints=arg_ints, arg_bonds=arg_bonds, base_cache=base_cache):
+            a_ints = list(arg_ints)
+            a_bonds = list(arg_bonds)
+            for bnd in list(a_bonds):
+                a_ints += [BondS.lo(bnd), BondS.hi(bnd)]
+            for x in a_ints[:4]:
+                for y in a_ints[:4]:
+                    if not x.eq(y):
+                        a_bonds.append(mkb(x, y))
+            a_ints, a_bonds = a_ints[:6], a_bonds[:10]
+            if "base" not in base_cache:
+                base_cache["base"] = GM.wf_instances(v0, cname, a_ints, a_bonds)
+            s_ints = [x for x in skolems if x.sort() == z3.IntSort()]
+            s_bonds = [x for x in skolems if x.sort() == BondS]
+            for bnd in list(s_bonds):
+                s_ints += [BondS.lo(bnd), BondS.hi(bnd)]
+            if not s_ints and not s_bonds:
+                return base_cache["base"]
+            return base_cache["base"] + GM.wf_instances(v0, cname, a_ints + s_ints, a_bonds + s_bonds, must=s_ints + s_bonds)
+
+        pending = []
+
+        def emit(pid_, clause, fs, what, skolems=()):
+            pending.append((pid_, clause, fs, what, list(skolems)))
+
+        if raised:
+            emit(pid, "does-not-raise", [z3.BoolVal(True)], f"the derivation raised {p.outcome[1]}")
+        else:
+            R = hd.get("res")
+            if not isinstance(R, Obj) or R.cls.name != contract.result_class(cname):
+                obs.append(Ob(f"{pid}/{base}/result-class#path{i}", kind, FAILED, "ast", detail=f"result is {getattr(getattr(R, 'cls', None), 'name', type(R).__name__)}"))
+                continue
+            vR = GM.View(h1, R)
+            spec = contract.spec(v0, sym, cname)
+            if "view" in want:
+                for cn, (sorts, getter, guard) in comps.items():
+                    pts = skolem(sorts, f"{cn}")
+                    exp = spec[cn](*pts) if cn in spec else getter(v0, *pts)
+                    g_ = guard(vR, *pts) if guard is not None else z3.BoolVal(True)
+                    emit(pid, f"result-view/{cn}", [*bond_norm(pts, sorts), g_, getter(vR, *pts) != exp], f"view component {cn} of the result differs from the reference", skolems=pts)
+            if "wf" in want:
+                for wname, vs, body, _ in GM.wf_raw(vR, cname, tag="n", bound=alloc_top(h1)):
+                    emit(pid, f"result-wf/{wname}", [z3.Not(body)], f"result violates {wname}", skolems=vs)
+            if "fresh" in want and contract.result_is_new:
+                for fname, vs, body in fresh_clauses(vR, h0.A0, cname):
+                    emit("C10", f"fresh/{fname}", [z3.Not(body)], f"result shares a mutable object with its source ({fname})", skolems=vs)
+            if "source" in want and contract.source_untouched:
+                emit(pid if pid != "C10" else "C10", "source-untouched", [z3.Not(unchanged(h0, h1, g0, g1))], "the derivation modified its source")
+        flush(obs, pending, pre, instances, base, i, kind, p, sym_flat, raised, timeout)
